@@ -427,11 +427,17 @@ class C14(Engine):
         path = h.filename
         ctx.XSH.history = h
         rows = []
-        for f in case["files"]:
-            for c in self._cmds(f):
-                h2 = c
-                rows.append((c["inp"].rstrip(), c["ts"][0]))
-                hs.xh_sqlite_append_history(h2, f["sid"], store_stdout=False, filename=path)
+        pairs = [(f, c) for f in case["files"] for c in self._cmds(f)]
+        if case["seed"] % 5 < 2:
+            # several shells share the database and a command is written when it FINISHES: rows are not inserted in the
+            # order the commands started ("newest" is by start time, not by insertion)
+            import random as _random
+
+            _random.Random(case["seed"]).shuffle(pairs)
+            probes["sqlite_rows_written_out_of_time_order"] = probes.get("sqlite_rows_written_out_of_time_order", 0) + 1
+        for f, c in pairs:
+            rows.append((c["inp"].rstrip(), c["ts"][0]))
+            hs.xh_sqlite_append_history(c, f["sid"], store_stdout=False, filename=path)
         rows.sort(key=lambda r: r[1])
         total = len(rows)
         lc = case["limit_class"]
